@@ -24,20 +24,35 @@ import (
 // while `vcheck run` executes the configurations one after the other with one
 // fresh output directory (VERIF_OUT) per run. The values computed by a unit
 // under one configuration are therefore written to
-// $VERIF_OUT/C06.<unit>.refcache and re-used by the same unit under the next
+// $VERIF_OUT/C06.<test binary>.<bits>bit.refcache and re-used under the next
 // configurations of the same run (never across runs; a replay computes its own).
+// Within a process the table is shared by the units of the package.
 // On load, entries spread over the file are recomputed; a mismatch marks the
 // unit broken.
 type memo struct {
+	c    *xladder.Curve
+	st   *store
+	mu   sync.Mutex
+	used map[string]bool
+	n    int // computed through this view
+}
+
+// store is the per-process, per-curve table shared by the units of a package
+// (they run concurrently); its file is shared by the configurations of a run.
+type store struct {
 	c      *xladder.Curve
 	mu     sync.Mutex
 	m      map[string][]byte
-	used   map[string]bool
-	n      int // computed in this process
+	added  int
 	loaded int
 	path   string
 	bad    string
 }
+
+var (
+	storesMu sync.Mutex
+	stores   = map[int]*store{}
+)
 
 func memoKey(c *xladder.Curve, k, u []byte) string {
 	ks := c.DecodeScalar(k)
@@ -46,21 +61,28 @@ func memoKey(c *xladder.Curve, k, u []byte) string {
 	return ks.Text(62) + "/" + us.Text(62)
 }
 
-func newMemo(c *xladder.Curve, r *verifmc.Run) *memo {
-	m := &memo{c: c, m: map[string][]byte{}, used: map[string]bool{}}
+func getStore(c *xladder.Curve, r *verifmc.Run) *store {
+	storesMu.Lock()
+	defer storesMu.Unlock()
+	if st, ok := stores[c.Bits]; ok {
+		return st
+	}
+	st := &store{c: c, m: map[string][]byte{}}
+	stores[c.Bits] = st
 	out := os.Getenv("VERIF_OUT")
 	if r == nil || out == "" || r.Replaying() {
-		return m
+		return st
 	}
-	m.path = filepath.Join(out, fmt.Sprintf("%s.%s.%dbit.refcache", r.Prop, r.Unit, c.Bits))
-	b, err := os.ReadFile(m.path)
+	// one file per test binary (= package) and curve
+	st.path = filepath.Join(out, fmt.Sprintf("%s.%s.%dbit.refcache", r.Prop, filepath.Base(os.Args[0]), c.Bits))
+	b, err := os.ReadFile(st.path)
 	if err != nil {
-		return m
+		return st
 	}
 	var got map[string][]byte
 	if err := gob.NewDecoder(bytes.NewReader(b)).Decode(&got); err != nil {
-		m.bad = "refcache unreadable: " + err.Error()
-		return m
+		st.bad = "refcache unreadable: " + err.Error()
+		return st
 	}
 	keys := make([]string, 0, len(got))
 	for k := range got {
@@ -76,61 +98,69 @@ func newMemo(c *xladder.Curve, r *verifmc.Run) *memo {
 				kt, ut = key[:j], key[j+1:]
 			}
 		}
-		if _, ok := ks.SetString(kt, 62); !ok {
-			m.bad = "refcache key"
-			return m
-		}
-		if _, ok := us.SetString(ut, 62); !ok {
-			m.bad = "refcache key"
-			return m
-		}
-		if !bytes.Equal(c.X(c.LE(&ks), c.LE(&us)), got[key]) {
-			m.bad = "refcache entry " + key + " does not match the reference"
-			return m
+		_, ok1 := ks.SetString(kt, 62)
+		_, ok2 := us.SetString(ut, 62)
+		if !ok1 || !ok2 || !bytes.Equal(c.X(c.LE(&ks), c.LE(&us)), got[key]) {
+			st.bad = "refcache entry " + key + " does not match the reference"
+			return st
 		}
 	}
-	m.m = got
-	m.loaded = len(got)
-	return m
+	st.m = got
+	st.loaded = len(got)
+	return st
+}
+
+func newMemo(c *xladder.Curve, r *verifmc.Run) *memo {
+	return &memo{c: c, st: getStore(c, r), used: map[string]bool{}}
 }
 
 func (m *memo) X(k, u []byte) []byte {
 	key := memoKey(m.c, k, u)
 	m.mu.Lock()
-	v, ok := m.m[key]
 	m.used[key] = true
 	m.mu.Unlock()
+	st := m.st
+	st.mu.Lock()
+	v, ok := st.m[key]
+	st.mu.Unlock()
 	if ok {
 		return v
 	}
 	v = m.c.X(k, u)
-	m.mu.Lock()
-	if _, dup := m.m[key]; !dup {
-		m.m[key] = v
+	st.mu.Lock()
+	if _, dup := st.m[key]; !dup {
+		st.m[key] = v
+		st.added++
+		m.mu.Lock()
 		m.n++
+		m.mu.Unlock()
 	}
-	m.mu.Unlock()
+	st.mu.Unlock()
 	return v
 }
 
 // finish records the counters and writes the run cache.
 func (m *memo) finish(r *verifmc.Run) {
 	r.Count("reference_values_distinct", len(m.used))
-	r.Set("reference_computed_in_this_process", m.n)
-	r.Set("reference_reused_from_earlier_configuration_of_this_run", len(m.used)-m.n)
-	if m.bad != "" {
-		r.Vacuous(m.bad)
+	r.Set("reference_values_computed_by_this_unit", m.n)
+	st := m.st
+	st.mu.Lock()
+	defer st.mu.Unlock()
+	r.Set("reference_values_loaded_from_earlier_configuration_of_this_run", st.loaded)
+	if st.bad != "" {
+		r.Vacuous(st.bad)
 		return
 	}
-	if m.path == "" || m.n == 0 {
+	if st.path == "" || st.added == 0 {
 		return
 	}
 	var buf bytes.Buffer
-	if err := gob.NewEncoder(&buf).Encode(m.m); err != nil {
+	if err := gob.NewEncoder(&buf).Encode(st.m); err != nil {
 		return
 	}
-	tmp := m.path + ".tmp"
+	tmp := fmt.Sprintf("%s.tmp%d", st.path, len(st.m))
 	if os.WriteFile(tmp, buf.Bytes(), 0o644) == nil {
-		_ = os.Rename(tmp, m.path)
+		_ = os.Rename(tmp, st.path)
 	}
+	st.added = 0
 }
